@@ -344,7 +344,9 @@ def run(pid, args, seed, work, t0):
     obligations = len(reg['thms']) + len(reg['tie']) - len(advisory)
     discharged = sum(1 for t in reg['thms'] + [t for t in reg['tie'] if t not in SKIP_TIES] if (T + t) in aud['axioms'] and not (set(aud['axioms'][T + t]) - STD_AXIOMS)) \
         if prep['build_ok'] and not aud['forbidden'] else 0
-    # ---- lanes
+    # ---- lanes (ambient state - logging configuration, decimal context - alternates across the calls into the library)
+    real.LOGMODE = 'mixed'
+    real.DECMODE = 'mixed'
     lane_results = []
     lane_hangs = []
     if reg['lanes']:
